@@ -178,10 +178,7 @@ impl Translator {
             Mul(rd, rs) => from_base_and_two_regs(0b1011_0000, rd, rs),
             Div(rd, rs) => from_base_and_two_regs(0b1100_0000, rd, rs),
             Inc(reg) => from_base_and_reg(0b0100_0100, reg),
-            Dec(src) => match src {
-                Source::Register(reg) => from_base_and_reg(0b0101_0000, reg),
-                _ => unimplemented!("DEC [something other than R*] does not work yet"),
-            },
+            Dec(src) => from_base_and_src(0b0101_0000, &src),
             Neg(reg) => from_base_and_reg(0b0011_0100, reg),
             And(rd, rs) => from_base_and_two_regs(0b1001_0000, rd, rs),
             Or(rd, rs) => from_base_and_two_regs(0b1010_0000, rd, rs),
@@ -447,6 +444,20 @@ fn from_bases_dst_and_src(b1: u8, b2: u8, dst: &Destination, src: &Source) -> Ve
 /// 0b1101_10_11 [0b10110101] 0b0110_11_00
 ///   -B1- MS RS  addr/const    --BASE 2--
 /// ```
+/// Compile a one-opcode instruction that encodes the addressing mode and register
+/// of its general operand in the lower four bits, possibly followed by a constant or address.
+fn from_base_and_src(base: u8, src: &Source) -> Vec<ByteOrLabel> {
+    let first = base + (source_addr_mode(src) << 2) + source_register(src);
+    let mut ret = vec![ByteOrLabel::Byte(first)];
+    match src {
+        Source::Constant(c) | Source::MemAddress(MemAddress::Constant(c)) => {
+            ret.push(c.clone().into())
+        }
+        _ => {}
+    }
+    ret
+}
+
 fn from_bases_and_src(b1: u8, b2: u8, src: &Source) -> Vec<ByteOrLabel> {
     use ByteOrLabel::*;
     // Calculate first byte from register and mode
